@@ -25,6 +25,9 @@ THEOREMS = [
     "RedunModel.C25.current_refuted_fork_edge",
     "RedunModel.C25.sched_preserves_closed",
     "RedunModel.C25.chain_no_stale_replay",
+    "RedunModel.C25.task_start_rollback_durable",
+    "RedunModel.C25.crash_no_stale_replay",
+    "RedunModel.C25.late_rollback_refuted",
 ]
 TRUSTED = [
     "modelled, not verified: HandleInfo.get_hash is a perfect hash (a handle state is its hash; the harness renames digests to "
@@ -56,6 +59,10 @@ RULE = ("(a) raw histories of advance_handle (single parent, merged parents, for
         "branch edited / reverted / re-run unchanged: spied backend calls vs raw model, every is_valid_handle answer vs reference, and for "
         "the parallel writers the docs' rule: exactly the edited writer (and the writer after the merge) re-executes, every returned "
         "handle is valid, an unchanged re-run executes nothing. "
+        "(d) chain executions on a sqlite FILE repository with tasks inline on the scheduler thread, 1-2 executions per history killed right "
+        "after a chosen task started writing (the database file as it is at that instant is what the next execution opens), then edits / "
+        "reverts: at every task entry a fresh connection must see every state rolled back for that task invalid; external-system oracle "
+        "across the deaths; durable table sizes and tasks run vs the Lean crash model. "
         "distinct = distinct histories; non-trivial = at least 2 backend calls / 2 executions")
 LEVEL_TEXT = ("Full strength on the model of the repaired backend: for every history of advances (any parents, fork chains) and rollbacks "
               "the descendant search ends (run_total) and a state is valid exactly when the reference lineage model says so "
@@ -64,7 +71,11 @@ LEVEL_TEXT = ("Full strength on the model of the repaired backend: for every his
               "current_matches_spec_partial proves its rollback agrees with the repaired one on every ancestor-closed state, and "
               "sched_preserves_closed that scheduler-driven chain histories only produce such states. "
               "chain_no_stale_replay: for every sequence of chain workflows (any edits/reverts), after each execution the external system "
-              "holds exactly the requested chain — no invalidated state is replayed — for both variants.")
+              "holds exactly the requested chain — no invalidated state is replayed — for both variants. Durability: rollback_handle does "
+              "not commit; task_start_rollback_durable proves that in the code's order (_perform_rollbacks before record_job_start) nothing is "
+              "pending when the task function is entered, crash_no_stale_replay extends chain_no_stale_replay to histories in which "
+              "executions are killed right after a task started writing, late_rollback_refuted is the closed counter-example for the order "
+              "in which the rollback follows record_job_start.")
 LEVEL_NOTE = ("FIXED=True: the model compared with /repo is the backend repaired by harness/findings_proposed/C25-handles.fix.diff (both "
               "former failing histories are corpus cases that must now pass); the unrepaired variant stays in the model (fixed=false) for "
               "the refutation witnesses and the partial theorem. Not modelled: concurrent sessions, commit points (rollback_handle leaves its "
@@ -737,6 +748,266 @@ def run_prog_history(ctx, ph):
     return sess, runs
 
 
+# ------------------------------------------------------------------ (d) process death between task start and the next commit
+class Kill(BaseException):
+    """the process dies (not an Exception: nothing in redun may handle it)"""
+
+
+_template = {}
+
+
+def _inline_executor_class():
+    from redun.executors.base import Executor
+
+    class InlineExecutor(Executor):
+        """runs the task body inside submit, on the scheduler thread: the order of backend calls, commits and task
+        entries is a function of the workflow only"""
+
+        def submit(self, job):
+            args, kwargs = job.args
+            try:
+                result = job.task.func(*args, **kwargs)
+            except Exception as error:  # noqa: BLE001
+                self._scheduler.reject_job(job, error)
+            else:
+                self._scheduler.done_job(job, result)
+    return InlineExecutor
+
+
+def file_scheduler(path):
+    from redun import Scheduler
+    from redun.config import Config
+    s = Scheduler(config=Config({"backend": {"db_uri": "sqlite:///" + path, "db_retries_backoff": "0", "db_retries_backoff_max": "0"}}))
+    s.load()
+    s.logger.setLevel(logging.CRITICAL)
+    s.add_executor(_inline_executor_class()("default"))
+    return s
+
+
+def close_scheduler(s):
+    try:
+        if s.backend.session is not None:
+            s.backend.session.close()
+        if s.backend.engine is not None:
+            s.backend.engine.dispose()
+    except Exception:  # noqa: BLE001
+        pass
+
+
+def fresh_db(workdir):
+    """a migrated, empty repository file (made once per process, then copied)"""
+    import shutil
+    if "path" not in _template:
+        import tempfile
+        d = tempfile.mkdtemp(prefix="c25-template-")
+        _template["dir"] = d
+        _template["path"] = os.path.join(d, "redun.db")
+        close_scheduler(file_scheduler(_template["path"]))
+    dst = os.path.join(workdir, "redun.db")
+    shutil.copy(_template["path"], dst)
+    return dst
+
+
+def durable_tables(path):
+    """what a fresh connection sees"""
+    import sqlite3
+    con = sqlite3.connect(path)
+    try:
+        rows = {h: bool(v) for h, v in con.execute("select hash, is_valid from handle")}
+        edges = {(a, b) for a, b in con.execute("select parent_id, child_id from handle_edge")}
+    finally:
+        con.close()
+    return rows, edges
+
+
+HOOK = {"fn": None}
+
+
+def make_task_hooked(depth, version):
+    from redun import task
+
+    def body(h):
+        EXEC.append((depth, version))
+        if HOOK["fn"] is not None:
+            HOOK["fn"](depth, version)
+        return h
+    body.__name__ = body.__qualname__ = "c25_k%d" % depth
+    return task(name="c25_k%d" % depth, namespace="verif", version=str(version))(body)
+
+
+def gen_kill_history(rng):
+    hist = gen_chain_history(rng)
+    out = []
+    killed = 0
+    for n, chain in enumerate(hist):
+        if n > 0 and killed < 2 and rng.random() < 0.45:
+            out.append({"chain": chain, "kill": rng.randrange(len(chain))})
+            killed += 1
+        else:
+            out.append({"chain": chain, "kill": None})
+    if not killed and len(out) >= 2:
+        i = rng.randrange(1, len(out))
+        out[i]["kill"] = rng.randrange(len(out[i]["chain"]))
+        # the classic: an edit is killed, then reverted
+        out.append({"chain": list(out[i - 1]["chain"]), "kill": None})
+    return out
+
+
+KILL_CORPUS = [
+    [{"chain": [0, 0], "kill": None}, {"chain": [1, 0], "kill": 0}, {"chain": [0, 0], "kill": None}],
+    [{"chain": [0, 0, 0], "kill": None}, {"chain": [0, 1, 0], "kill": 1}, {"chain": [0, 0, 0], "kill": None},
+     {"chain": [0, 1, 0], "kill": None}],
+    [{"chain": [0], "kill": None}, {"chain": [1], "kill": 0}, {"chain": [1], "kill": 0}, {"chain": [0], "kill": None}],
+]
+
+
+def run_kill_history(ctx, hist, name="wk"):
+    """Chain executions on a sqlite FILE repository, tasks inline on the scheduler thread.  At every task entry the
+    durable database (a fresh connection) is read; in a `kill` execution the process dies right after task number
+    `kill` started writing: the database file as it is at that instant is what the next execution opens.
+    Returns per-execution records; violations of the durability statement are recorded in them."""
+    import shutil
+    import tempfile
+    from redun.expression import quote
+    from redun.scheduler import root_task
+    H = env()["H"]
+    workdir = tempfile.mkdtemp(prefix="c25-kill-")
+    recs, ext = [], []
+    try:
+        path = fresh_db(workdir)
+        gen = 0
+        for n, ex in enumerate(hist):
+            chain, kill = ex["chain"], ex["kill"]
+            sched = file_scheduler(path)
+            backend = sched.backend
+            dbm = env()["dbm"]
+            expect = set()       # states rolled back for the task that is about to start
+            rec = {"chain": chain, "kill": kill, "ran": [], "err": None, "not_durable": None, "killed": False}
+            orig_rb = backend.rollback_handle
+
+            def rollback(h, backend=backend, orig_rb=orig_rb, expect=expect, dbm=dbm):
+                # descendants of h over every recorded edge, as the session sees them
+                edges = [(e.parent_id, e.child_id) for e in backend.session.query(dbm.HandleEdge).all()]
+                succ = {}
+                for a, b in edges:
+                    succ.setdefault(a, []).append(b)
+                stack, seen = list(succ.get(h.__handle__.hash, ())), set()
+                while stack:
+                    x = stack.pop()
+                    if x not in seen:
+                        seen.add(x)
+                        stack.extend(succ.get(x, ()))
+                expect.update(seen)
+                return orig_rb(h)
+            backend.rollback_handle = rollback
+            dead = os.path.join(workdir, "dead%d.db" % n)
+
+            def hook(depth, version, rec=rec, expect=expect, path=path, dead=dead, kill=kill):
+                rows, _ = durable_tables(path)
+                still = sorted(h for h in expect if rows.get(h))
+                if still and rec["not_durable"] is None:
+                    rec["not_durable"] = {"task": [depth, version], "states_rolled_back": len(expect), "still_valid_on_disk": len(still)}
+                expect.clear()
+                if kill is not None and depth == kill:
+                    shutil.copy(path, dead)          # exactly what the dying process leaves on disk
+                    rec["killed"] = True
+                    raise Kill()
+            HOOK["fn"] = hook
+            EXEC.clear()
+            expr = H(name)
+            for d, v in enumerate(chain):
+                expr = make_task_hooked(d, v)(expr)
+            final = None
+            try:
+                final = sched.run(root_task(quote(expr)))
+            except Kill:
+                pass
+            except Exception as e:  # noqa: BLE001
+                rec["err"] = "!" + type(e).__name__
+            finally:
+                HOOK["fn"] = None
+                close_scheduler(sched)
+            rec["ran"] = list(EXEC)
+            for d, v in rec["ran"]:
+                ext = ext[:d] + [v]
+            if rec["killed"]:
+                gen += 1
+                path = os.path.join(workdir, "redun%d.db" % gen)
+                shutil.move(dead, path)
+            rows, edges = durable_tables(path)
+            rec.update(ext=list(ext), rows=len(rows), valid=sum(1 for v in rows.values() if v), edges=len(edges),
+                       final_valid=(None if final is None else bool(rows.get(final.__handle__.hash))))
+            recs.append(rec)
+    finally:
+        shutil.rmtree(workdir, ignore_errors=True)
+    return recs
+
+
+def kname(d, v):
+    return "k%dv%d" % (d, v)
+
+
+def kill_lines(hist, name="wk"):
+    out = ["(reset %s)" % ("fixed" if FIXED else "current")]
+    for ex in hist:
+        ts = " ".join(hx(kname(d, v)) for d, v in enumerate(ex["chain"]))
+        if ex["kill"] is None:
+            out.append("(wf %s %s)" % (hx(name), ts))
+        else:
+            out.append("(wfk %s i%d %s)" % (hx(name), ex["kill"], ts))
+    return out
+
+
+def check_kill(ctx, hist, recs, replies):
+    # ---- oracle 1: the durability statement, at every task entry
+    found = False
+    for n, (ex, r) in enumerate(zip(hist, recs)):
+        case = {"family": "kill", "history": hist[:n + 1], "run": n}
+        if r["err"]:
+            ctx.violation("C25-chain-workflow-raises", "scheduler.run raised " + r["err"], case=case, expected="no error", actual=r["err"],
+                          kind="crash_point")
+            return "violation"
+        if r["not_durable"]:
+            ctx.violation("C25-rollback-not-durable-when-task-starts", "a handle-writing task function was entered while states the "
+                          "scheduler had rolled back for it were still valid for a fresh connection to the database (the rollback was "
+                          "pending in an open transaction: a process death here loses it)", case=case,
+                          expected="every rolled-back state invalid on disk", actual=r["not_durable"], kind="crash_point")
+            found = True
+            break
+    # ---- oracle 2: end to end, across the process deaths: no superseded state replayed, result valid
+    for n, (ex, r) in enumerate(zip(hist, recs)):
+        case = {"family": "kill", "history": hist[:n + 1], "run": n}
+        if not r["killed"]:
+            if r["ext"][:len(ex["chain"])] != ex["chain"]:
+                ctx.violation("C25-stale-handle-state-replayed-after-process-death" if any(x["killed"] for x in recs[:n]) else
+                              "C25-stale-handle-state-replayed", "after the execution the external system does not hold the requested "
+                              "chain: a task whose handle state had been superseded was not re-executed", case=case, expected=ex["chain"],
+                              actual={"external": r["ext"], "ran": r["ran"]}, kind="crash_point")
+                return "violation"
+            if r["final_valid"] is not True:
+                ctx.violation("C25-result-handle-invalid", "the handle returned by the execution is not valid", case=case, expected=True,
+                              actual=r["final_valid"], kind="crash_point")
+                return "violation"
+    if found:
+        return "violation"
+    # ---- correspondence with the chain model (durable state after each execution)
+    for n, (ex, r, rep) in enumerate(zip(hist, recs, replies[1:])):
+        case = {"family": "kill", "history": hist[:n + 1], "run": n}
+        if rep.startswith("!") or rep.startswith("bad-"):
+            ctx.mismatch("model driver answered " + rep, case=case, model=rep, impl="ok")
+            return "mismatch"
+        m = {k[0]: list(k[1:]) for k in unsx(rep)}
+        impl = {"ext": [kname(d, v) for d, v in enumerate(r["ext"])], "rows": [r["rows"], r["valid"]], "edges": [r["edges"]]}
+        if ex["kill"] is None:
+            impl["ran"] = [kname(d, v) for d, v in r["ran"]]
+        model = {k: m.get(k) for k in impl}
+        if model != impl:
+            ctx.mismatch("execution with process death: external state / durable table sizes differ from the model", case=case,
+                         model=model, impl=impl)
+            return "mismatch"
+    return "ok"
+
+
 # ------------------------------------------------------------------ driver of the whole check
 def run(ctx):
     rng = ctx.rng
@@ -747,13 +1018,13 @@ def run(ctx):
         sess = Session(ctx, "raw")
         kinds = script(sess)
         jobs.append(("raw", label, sess, kinds))
-    for _ in range(ctx.n(400, 6000)):
+    for _ in range(ctx.n(300, 5000)):
         hist = gen_raw(rng, 10 if ctx.tier == "quick" else rng.choice([6, 10, 14]))
         sess = Session(ctx, "raw")
         kinds = exec_raw(sess, hist)
         jobs.append(("raw", hist, sess, kinds))
     # (b) chains
-    chains = [list(map(list, h)) for h in CHAIN_CORPUS] + [gen_chain_history(rng) for _ in range(ctx.n(60, 700))]
+    chains = [list(map(list, h)) for h in CHAIN_CORPUS] + [gen_chain_history(rng) for _ in range(ctx.n(50, 600))]
     for hist in chains:
         sess, runs = run_chain_history(ctx, hist)
         jobs.append(("chain", hist, sess, runs))
@@ -762,6 +1033,9 @@ def run(ctx):
     for ph in progs:
         sess, runs = run_prog_history(ctx, ph)
         jobs.append(("prog", ph, sess, runs))
+    # (d) process death
+    kills = [[dict(x) for x in h] for h in KILL_CORPUS] + [gen_kill_history(rng) for _ in range(ctx.n(8, 120))]
+    kill_recs = [run_kill_history(ctx, h) for h in kills]
     # one model run for everything
     lines, offs = [], []
     for kind, hist, sess, extra in jobs:
@@ -769,7 +1043,15 @@ def run(ctx):
         lines += sess.lines()
         if kind == "chain":
             lines += chain_lines(hist)
+    koffs = []
+    for h in kills:
+        koffs.append(len(lines))
+        lines += kill_lines(h)
     replies = ctx.model("C25", lines)
+    for h, recs, o in zip(kills, kill_recs, koffs):
+        res = check_kill(ctx, h, recs, replies[o:o + 1 + len(h)])
+        ctx.case(key="kill:" + json.dumps(h), sample={"family": "kill", "history": h, "ran": [r["ran"] for r in recs]},
+                 family="kill", outcome=res, executions=len(h), kills=sum(1 for r in recs if r["killed"]))
     for (kind, hist, sess, extra), o in zip(jobs, offs):
         nl = len(sess.lines())
         hjson = hist if not isinstance(hist, str) else {"corpus": hist}
@@ -859,6 +1141,13 @@ def replay(ctx, case):
             res = r2 if r2 != "ok" else res
         for r in runs:
             print("  run", r)
+        print("replay outcome:", res)
+    elif fam == "kill":
+        hist = c["history"]
+        recs = run_kill_history(ctx, hist)
+        res = check_kill(ctx, hist, recs, ctx.model("C25", kill_lines(hist)))
+        for r in recs:
+            print("  execution", r)
         print("replay outcome:", res)
     elif fam and fam.startswith("program"):
         ph = c["history"]
